@@ -52,7 +52,11 @@ def _patches(env):
         def __getattr__(self, k):
             return getattr(self._real, k)
 
-    return dict(_scale_ao_sparse=_scale_ao_sparse, _dot_ao_ao_sparse=_dot_ao_ao_sparse, lib=_Lib(numint.lib), numint=_NM(numint.numint))
+    def eval_ao(mol, coords, deriv=0, **kw):
+        # the harness grid carries the point index in its first coordinate
+        return mol._AO[0][[int(c) for c in coords[:, 0]]]
+
+    return dict(eval_ao=eval_ao, _scale_ao_sparse=_scale_ao_sparse, _dot_ao_ao_sparse=_dot_ao_ao_sparse, lib=_Lib(numint.lib), numint=_NM(numint.numint))
 
 
 class _Patch(object):
@@ -80,7 +84,7 @@ class FakeMol(object):
         return np.zeros((1, 1))
 
 
-def make_world(env, ng, level, nldf, blocks=None):
+def make_world(env, ng, level, nldf, blocks=None, sdmx=False):
     """symbolic AO values, weights; returns (mol, grids, NI factory)"""
     numint = env.m.numint
     AO = env.arr("ao", (4, ng, NAO), lo="-4", hi="4")
@@ -95,6 +99,7 @@ def make_world(env, ng, level, nldf, blocks=None):
         def __init__(self):
             self.weights = W
             self.coords = np.zeros((ng, 3))
+            self.coords[:, 0] = np.arange(ng)
 
     nfeat = 1
     nrow = 5 if level == "MGGA" else 4
@@ -130,6 +135,51 @@ def make_world(env, ng, level, nldf, blocks=None):
                         k += 1
             return out
 
+    CV = env.arr("sdmx_c", (NAO,), lo="-2", hi="2") if sdmx else None
+
+    class FakeSdmx(object):
+        """contract stub of the SDMX generator with the real object's statefulness and calling conventions (EXXSphGenerator):
+        get_features takes one (2-d) or several (3-d) density matrices and caches, per matrix, the intermediate p_g = sum_mn ao_gm
+        DM_mn c_n; the one feature is p_g^2.  get_vxc_(V, v) adds, for a 2-d V, the potential of cached matrix 0, and for a 3-d V
+        that of cached matrix k to V[k]; V0 + V0^T is dE/dDM as for the real class"""
+        fast = True
+
+        def __init__(self):
+            self._cached_ao_data = None
+
+        def get_extra_ao(self, mol):
+            return 0
+
+        def get_cao(self, mol, coords, save_buf=True):
+            return None
+
+        def get_features(self, dms, mol, coords, non0tab=None, cutoff=None, save_buf=False, ao=None, cao=None):
+            nd = dms.ndim
+            if nd not in (2, 3):
+                raise ValueError
+            d3 = dms[None] if nd == 2 else dms
+            n = ao.shape[0]
+            out = env.zeros((len(d3), 1, n))
+            terms = []
+            for k in range(len(d3)):
+                pk = np.einsum("gm,mn,n->g", ao, d3[k], CV)
+                terms.append(pk)
+                out[k, 0] = pk * pk
+            self._cached_ao_data = (ao, terms)
+            return out[0] if nd == 2 else out
+
+        def get_vxc_(self, vxc_mat, vxc_grid):
+            if self._cached_ao_data is None:
+                raise RuntimeError("Must call get_features first")
+            if vxc_mat.ndim == 2:
+                vxc_mat, vxc_grid = vxc_mat[None], vxc_grid[None]
+            elif vxc_mat.ndim != 3:
+                raise ValueError
+            ao, terms = self._cached_ao_data
+            for k in range(len(vxc_mat)):
+                vxc_mat[k] += np.einsum("g,gm,n->mn", vxc_grid[k][0] * terms[k], ao, CV)
+            return vxc_mat
+
     class _SL(object):
         pass
     _SL.level = level
@@ -145,12 +195,16 @@ def make_world(env, ng, level, nldf, blocks=None):
         is_empty = not nldf
         nfeat = _nf
 
+    class _SD(object):
+        is_empty = not sdmx
+        nfeat = 1 if sdmx else 0
+
     class _ST(object):
         sl_settings = _SL()
         nlof_settings = _E()
         nldf_settings = _N()
-        sdmx_settings = _E()
-        has_sdmx = False
+        sdmx_settings = _SD()
+        has_sdmx = bool(sdmx)
         has_nldf = bool(nldf)
 
     class _T(object):
@@ -165,13 +219,13 @@ def make_world(env, ng, level, nldf, blocks=None):
     class NI(base):
         def __init__(self):
             self.nldfgen = FakeGen() if nldf else None
-            self.sdmxgen = None
+            self.sdmxgen = FakeSdmx() if sdmx else None
             self.cutoff = 1e-13
             self.timer = _T()
             self.mol = None
 
         settings = property(lambda s: _ST)
-        has_sdmx = False
+        has_sdmx = bool(sdmx)
         has_nldf = bool(nldf)
 
         def initialize_feature_generators(self, mol, grids, nspin):
@@ -212,6 +266,10 @@ def make_world(env, ng, level, nldf, blocks=None):
             r = rho.reshape(ns, nrow, -1)
             n = r.shape[2]
             f = None if nldf_feat is None else nldf_feat.reshape(ns, -1, n)
+            nn = 0 if f is None else f.shape[1]
+            if sdmx_feat is not None:
+                sf = sdmx_feat.reshape(ns, -1, n)
+                f = sf if f is None else np.concatenate([f, sf], axis=1)
             nargs = ns * nrow + (0 if f is None else ns * f.shape[1])
             leaf = xcf.setdefault((ns, nargs), stubs.LeafFn(env, "EXC_ns%d" % ns, nargs))
             exc = env.zeros((n,))
@@ -231,11 +289,16 @@ def make_world(env, ng, level, nldf, blocks=None):
                         for i in range(f.shape[1]):
                             vn[s, i, g] = dens * leaf.grad(args, k)
                             k += 1
+            vs = None
+            if sdmx_feat is not None:
+                vn, vs = (vn[:, :nn] if nn else None), vn[:, nn:]
             if ns == 1:
-                return exc, (vxc[0], None if vn is None else vn[0], None), None, None
-            return exc, (vxc, vn, None), None, None
+                return exc, (vxc[0], None if vn is None else vn[0], vs), None, None
+            return exc, (vxc, vn, vs), None, None
 
-    return FakeMol(), FakeGrids, NI
+    mol = FakeMol()
+    mol._AO = AO
+    return mol, FakeGrids, NI
 
 
 def sym_dm(env, name):
@@ -254,10 +317,10 @@ def _dE(env, name, E, vm, tag):
             env.deriv("%s_dE_d%s_%d%d" % (tag, name, i, j), E, (name, (i, j)), got)
 
 
-def h_l5(env, kind, level, ng=2, blocks=None):
+def h_l5(env, kind, level, ng=2, blocks=None, sdmx=False):
     numint = env.m.numint
     nldf = kind.endswith("nldf")
-    mol, Grids, NI = make_world(env, ng, level, nldf, blocks)
+    mol, Grids, NI = make_world(env, ng, level, nldf, blocks, sdmx)
     with _Patch(numint, _patches(env)):
         if kind.startswith("rks"):
             dm = sym_dm(env, "dm")
@@ -281,11 +344,11 @@ def h_l5(env, kind, level, ng=2, blocks=None):
             _dE(env, "dmb", exc, vmat[1], "uks_b")
 
 
-def h_batch(env, kind, level, ng=2):
+def h_batch(env, kind, level, ng=2, sdmx=False):
     """C09: a batched call (nset = 2) gives, for each density matrix, exactly what a separate call on a fresh object gives"""
     numint = env.m.numint
     nldf = kind.endswith("nldf")
-    mol, Grids, NI = make_world(env, ng, level, nldf)
+    mol, Grids, NI = make_world(env, ng, level, nldf, None, sdmx)
     with _Patch(numint, _patches(env)):
         if kind.startswith("rks"):
             d0, d1 = sym_dm(env, "p"), sym_dm(env, "q")
@@ -318,7 +381,7 @@ def h_batch(env, kind, level, ng=2):
                             env.equal("vmat_spin%d_dm%d_%d%d" % (s, k, i, j), vb[s, k, i, j], v1[s, i, j])
 
 
-def h_blocking(env, kind, level):
+def h_blocking(env, kind, level, sdmx=False):
     """C09: one block of two grid points gives exactly what two blocks of one point give"""
     numint = env.m.numint
     nldf = kind.endswith("nldf")
@@ -327,7 +390,7 @@ def h_blocking(env, kind, level):
         dm = sym_dm(env, "dm")
         dmb = sym_dm(env, "dmb") if kind.startswith("uks") else None
         for blocks in ([(0, 2)], [(0, 1), (1, 2)]):
-            mol, Grids, NI = make_world(env, 2, level, nldf, blocks)
+            mol, Grids, NI = make_world(env, 2, level, nldf, blocks, sdmx)
             if kind.startswith("rks"):
                 fn = numint.nr_rks_nldf if nldf else numint.nr_rks
                 res.append(fn(NI(), mol, Grids(), "PBE", dm.copy()))
@@ -347,6 +410,8 @@ def tasks(tier):
     for kind in ("rks", "uks", "rks_nldf", "uks_nldf"):
         for level in (("MGGA", "GGA") if tier == "thorough" else ("MGGA",)):
             out.append(Task("L5/%s/%s" % (kind, level), h_l5, dict(kind=kind, level=level), mods="numint", max_paths=16))
+    for kind in ("rks", "uks") + (("rks_nldf", "uks_nldf") if tier == "thorough" else ()):
+        out.append(Task("L5/%s/MGGA/with_sdmx" % kind, h_l5, dict(kind=kind, level="MGGA", sdmx=True), mods="numint", max_paths=16))
     if tier == "thorough":
         out.append(Task("L5/rks_nldf/MGGA/2blocks", h_l5, dict(kind="rks_nldf", level="MGGA", blocks=[(0, 1), (1, 2)]), mods="numint", max_paths=16))
     return out
@@ -357,4 +422,7 @@ def c09_tasks(tier):
     for kind in ("rks", "uks", "rks_nldf", "uks_nldf"):
         out.append(Task("batch/%s" % kind, h_batch, dict(kind=kind, level="MGGA"), mods="numint", max_paths=16))
         out.append(Task("blocking/%s" % kind, h_blocking, dict(kind=kind, level="MGGA"), mods="numint", max_paths=16))
+        out.append(Task("batch/%s/with_sdmx" % kind, h_batch, dict(kind=kind, level="MGGA", sdmx=True), mods="numint", max_paths=16))
+        if tier == "thorough" or kind == "rks":
+            out.append(Task("blocking/%s/with_sdmx" % kind, h_blocking, dict(kind=kind, level="MGGA", sdmx=True), mods="numint", max_paths=16))
     return out
